@@ -27,6 +27,8 @@ def run(repo, chk, tier):
     histogram(repo, chk, 'C02.1h')
     self_pair_test(repo, chk, 'C02.2')
     coder(repo, chk)
+    from .common import vector_casts
+    vector_casts(repo, chk, 'C02.4')
 
 
 def coder(repo, chk):
